@@ -189,10 +189,10 @@ func (c *Ctx) checkLocksReleased() {
 
 type intrinsic func(c *Ctx, fn *ssa.Function, args []Value) Value
 
-var intrinsics map[string]intrinsic
+var intrinsics = map[string]intrinsic{}
 
 func init() {
-	intrinsics = map[string]intrinsic{}
+
 	reg := func(names string, f intrinsic) {
 		for _, n := range strings.Fields(names) {
 			intrinsics[n] = f
@@ -371,6 +371,14 @@ func init() {
 			return IfaceV{}
 		}
 		return c.newErr("joined", ps...)
+	})
+	// validate.PathedError: path bookkeeping (regexp, errors.As) is formatting; keep the error ancestry
+	reg("github.com/synnaxlabs/x/validate.PathedError", func(c *Ctx, fn *ssa.Function, a []Value) Value {
+		e := a[0].(IfaceV)
+		if e.t == nil {
+			return c.newErr("pathed-nil")
+		}
+		return c.newErr("pathed", e)
 	})
 	// ---- fmt / strconv (opaque unless concrete) ----
 	reg("fmt.Sprintf", func(c *Ctx, fn *ssa.Function, a []Value) Value {
